@@ -168,6 +168,19 @@ def run(ctx):
                bool(loops) and all(dominates(l, stmt) for l in loops), nontrivial=False,
                why='recipe is locked before its steps ran', key='lock before steps')
 
+    # the all-used gate compares sizes: every name marked used must be the declared name of an object of the step,
+    # never a name taken from an operation's result (a result may carry another name)
+    from .c08 import _is_operation
+    adds = [(c, s, b) for c, s, b in ffb.calls if isinstance(c.func, ast.Attribute) and c.func.attr in ('add', 'update')
+            and path_from_param(c.func.value) == ('self', ['used'])]
+    for c, s, b in adds:
+        a = c.args[0] if c.args else None
+        from_result = any(isinstance(n, ast.Call) and _is_operation(n.orig if hasattr(n, 'orig') else n) for n in deep_walk(a)) \
+            if a is not None else False
+        ctx.ob('C16.R2', bake, s.lineno, f"name marked used `{show(a, 30)}` is a declared name of the step", not from_result,
+               fact='derived from the step record' if not from_result else 'derived from the result of an operation',
+               why='a name that was never declared enters the used set: the size comparison with the declared objects no '
+                   'longer detects an unused object', key='used name from an operation result')
     # ---------------------------------------------------------------- R3 declared operands
     step_adders = []
     for m in mutators:
@@ -378,6 +391,14 @@ def _stage_rules(ctx, recipe, ffb):
            'end_stage stores slice(start snapshot, len(self.steps)) under the stage name', ok_slice,
            fact=show(st_store[0][3]) if st_store else 'no store', why='stage does not cover exactly its steps',
            key='stage slice')
+    from .common import on_every_normal_path
+    for _once in (1,):
+        recorded = any(on_every_normal_path(s[0], es.node) for s in st_store)
+        ctx.ob('C16.R5', es, (st_store[0][0].lineno if st_store else es.node.lineno),
+               'every normal path of end_stage records the stage', recorded,
+               fact='the store to self.stages is unconditional (every other arm raises)' if recorded else 'a path ends the stage without recording it',
+               why='a stage that was opened and closed leaves no record: its name can be used again and queries on it fail',
+               key='end_stage path without record')
     reset = store_of(ffe, 'self.current_stage')
     ctx.ob('C16.R5', es, (reset[0][0].lineno if reset else es.node.lineno), "end_stage resets the open stage to 'all'",
            bool(reset) and all(const_value(s[3]) == 'all' for s in reset), why='stage stays open', key='stage reset')
